@@ -201,7 +201,18 @@ InitN ==
 Code(e) == e.kind \o ":" \o ToString(e.a)
 Obs(s) == [iS |-> s.iS, rS |-> s.rS, iRem |-> s.iRem, rRem |-> s.rRem]
 
-\* ---- attacker edits of the message in flight
+\* ---- attacker edits of the message in flight.  Each abstract edit stands for a family of byte-level
+\* edits which the harness enumerates on the real message (layout measured on a dry run):
+\*   drop / dup / inject   the frame is withheld / delivered twice / followed by a junk frame
+\*   flip(i)               every byte of field i (e, enc(s), enc(payload)) flipped
+\*   starve                the declared length exceeds what arrives: every 0 bit of the 2-byte prefix set,
+\*                         or the body cut at every position with the prefix kept (Truncate, FlipField(length))
+\*   lensmall              every 1 bit of the prefix cleared (FlipField(length))
+\*   truncfix(b)           cut inside field b+1 at every position, prefix rewritten (Truncate)
+\*   extfix(b)             junk inserted at field boundary b, prefix rewritten (Extend)
+\*   splice                message k of the other session: replayed from its finished transcript, or swapped
+\*                         live between two running sessions (SwapWithSession2, Replay)
+\*   reflect               the target's own previous message sent back to it
 EditsOf(s) ==
   IF Len(s.air) # 1 THEN {}
   ELSE
